@@ -1,7 +1,7 @@
 (** Extraction of the executable models and checkers to OCaml.
     Only ExtrOcamlBasic and ExtrOcamlString are used; numbers stay Coq datatypes. *)
 From Coq Require Import Extraction ExtrOcamlBasic ExtrOcamlString.
-From Parol Require Import Grammar.Cfg Grammar.Member Runtime.Levenshtein Runtime.LevFaithful Runtime.DfaEval Transform.LrAugment Analysis.WellFormed.
+From Parol Require Import Grammar.Cfg Grammar.Member Runtime.Levenshtein Runtime.LevFaithful Runtime.DfaEval Transform.LrAugment Analysis.WellFormed Analysis.FirstFollow Analysis.FFCheck.
 Extraction Language OCaml.
 Set Extraction Optimize.
 Separate Extraction Levenshtein.lev_check Levenshtein.dist LevFaithful.lev
@@ -10,4 +10,6 @@ Separate Extraction Levenshtein.lev_check Levenshtein.dist LevFaithful.lev
   LrAugment.augment_check LrAugment.isolatedb LrAugment.augment
   WellFormed.nullable_check WellFormed.unproductive_check WellFormed.reachable_check WellFormed.unreachable_check
   WellFormed.leftrec_check WellFormed.decision_check WellFormed.nullable_panics WellFormed.check_decision
-  WellFormed.nullable_nts WellFormed.unproductive_nts WellFormed.unreachable_nts WellFormed.left_recursive_nts.
+  WellFormed.nullable_nts WellFormed.unproductive_nts WellFormed.unreachable_nts WellFormed.left_recursive_nts
+  FFCheck.first_check FFCheck.first_prods_check FFCheck.follow_check FFCheck.decide_check
+  FirstFollow.first_ref FirstFollow.follow_ref FirstFollow.decide_ref FirstFollow.lookup FirstFollow.first_prods.
